@@ -26,7 +26,9 @@ def run_C01(tier, seed):
     # design level: published relation vanishes on the code-shaped prover's output, exhaustively over GF(p)
     res.append(stages.algebra_stage("C01", [(5, 2, 1, 2, "prover")] if q else [(5, 2, 2, 1, "prover"), (7, 4, 1, 2, "prover"), (5, 1, 4, 1, "prover")]))
     # conformance: the library's prover and verifier, step by step against the specification, in 252-bit arithmetic
-    sc, _ = stages.pick_scenarios("complete", tier, seed, lambda s: honest(s) and nm_of(s) <= (8 if q else 32), 14 if q else 120, prop="C01")
+    # (always including commitments that are the identity point: value 0 under all-zero blindings)
+    sc, _ = stages.pick_scenarios("complete", tier, seed, lambda s: honest(s) and nm_of(s) <= (8 if q else 32), 14 if q else 120, prop="C01",
+                                  must=identity_commitment)
     res.append(stages.trace_stage("C01", "prove", sc, seed, module="TraceProve", consts=TP_CONSTS, calls="prove"))
     res.append(stages.trace_stage("C01", "verify", sc, seed, module="TraceVerify", calls="verify"))
     # honest triples stay accepted however many of them are verified together (beyond the chunk limit, mixed sizes)
@@ -36,6 +38,10 @@ def run_C01(tier, seed):
     big.name = "api:batch@256"
     res.append(big)
     return res
+
+
+def identity_commitment(s):
+    return any(m.get("zb") == 1 and all(not any(v) for v in m["vals"]) for m in s["sc"]["members"])
 
 
 def nm_of(s):
